@@ -399,7 +399,7 @@ def run_modules(ctx, mods):
             ctx.count("feature:" + ft)
         # the CLI is run for every module (its verdict must agree); the driver only matters when accepted
         driver = build_driver(r.md, r.name, r.plan) if r.status == 0 else "int main() { return 0; }\n"
-        jobs.append(cpp_build.CppJob(r.name, r.md["text"], driver, cxxflags=["-std=c++14", "-O0", "-w"]))
+        jobs.append(cpp_build.CppJob(r.name, r.md["text"], driver, cxxflags=["-std=c++14", "-O0"]))
     wd = os.path.join(ctx.bdir, "cpp")
     t0 = time.time()
     results = cpp_build.run_jobs(wd, jobs, parallel=fw.NPROC, timeout=300)
